@@ -13,12 +13,12 @@ META = dict(
     technique='Hypothesis rule-based state machine over interleaved constructor / call / mutator operations with a fresh-interpreter reference for every call; '
               'stateless batch metamorphic relations (singleton vs superset / subset / permutation / duplicates)',
     rule='histories = sequences (<= 12 steps quick, <= 30 thorough) of construct(spec), call(instance, batch, t), reconstruct, black-box-Noh public mutators on OTHER '
-         'instances, drawn by a RuleBasedStateMachine over 24 solver specs weighted toward the module-global families (Guderley, RMTV, Su-Olson, radiative shocks, black-box Noh, '
+         'instances, drawn by a RuleBasedStateMachine over 39 solver specs weighted toward the module-global families (Guderley, RMTV, Su-Olson, radiative shocks, black-box Noh, '
          'Blake, Riemann, Sedov); oracle = every value returned by a call equals the value of the SAME call executed as the first ExactPack activity of a fresh interpreter '
          '(subprocess, cached per distinct call); batch layer: the value at a point in a singleton call equals its value inside supersets, subsets, permutations and batches '
-         'with duplicates (exact class 1e-12, iterative 1e-6, documented resolution for Sedov / Mader); non-trivial = a call preceded by a construct/call of another instance '
+         'with duplicates (exact class 1e-12, iterative 1e-6, documented resolution for Sedov / Mader), and - for every public solver class found with pkgutil, half of the cases with generated non-default parameters - the value in a singleton call equals the value inside a 2..12 point batch; non-trivial = a call preceded by a construct/call of another instance '
          'of the same module family or by a call of the same object with a different (batch, t); distinct = hash of the history',
-    assumptions=['sequential interleavings in one interpreter (no threads)', 'the reference of a mutated black-box-Noh instance itself is not asserted (its own tolerance is its parameter), only other instances'])
+    assumptions=['sequential interleavings in one interpreter (no threads)', 'documented batch dependence is respected: Sedov and the EP piston read max(x) (every batch carries the same largest point), Mader takes its cell width from the batch (only whole uniform grids are compared)', 'the reference of a mutated black-box-Noh instance itself is not asserted (its own tolerance is its parameter), only other instances'])
 
 A4 = 4.0 * 4.0 * 5.67051e-5 / 2.99792458e10
 
